@@ -119,6 +119,8 @@ def verus_scalar_units(plan):
             continue
         for T in INTS:
             signed = T in SIGNED
+            if signed and op == "mod":
+                continue   # Verus gives the exec signed `%` no usable specification at all
             fn = "%s_%s" % (macro, T)
             if op in ("add", "sub", "mul"):
                 req = ["in_range(lhs as int %s rhs as int, %s::MIN as int, %s::MAX as int)" % (sym, T, T)]
@@ -142,7 +144,7 @@ def verus_scalar_units(plan):
     u = VerusUnit("c01_scalar_kernels", verus_file(items), fns, canaries)
     plan.verus.append(u)
     plan.dropped.append("(K) scalar kernels: macro body `unsafe { *$out = *$lhs OP *$rhs; }` is transcribed with K1 (`unsafe{B}` -> B) and K2 (`*$p` -> p) into `fn «op»_op_«T»(lhs: T, rhs: T) -> (out: T) { let out: T; out = lhs OP rhs; out }`; raw-pointer dereference is dropped")
-    plan.assumptions.append("Verus: signed `/` and `%` are specified only for non-negative operands; signed division with a negative operand is decided by Kani for i8/i16 only")
+    plan.assumptions.append("Verus: signed `/` is specified only for non-negative operands and signed `%` not at all; signed division/remainder with negative operands is decided by Kani for i8 only (quick) / where CBMC finishes (thorough)")
 
 
 def modname(op):
@@ -218,7 +220,7 @@ def plan(plan, tier, seed, prop="C01"):
                     if op == "pow":
                         unwind = 40
                     text = kgen.bin_harness(fn, d["struct"], T, O, form, R, C, pre, oracle,
-                                            generic=(d["cls"] != "logic"), exact=exact, unwind=unwind)
+                                            generic=(d["cls"] != "logic"), exact=exact, unwind=unwind, twice=(tier == "thorough"))
                     hs.append((fn, text))
                     loopfree = form[0] == "SS"
                     ob = plan.ob("%s.%s.%s.%s%s" % (prop, op, form[0], T, shp), "kani",
@@ -247,15 +249,15 @@ def plan(plan, tier, seed, prop="C01"):
             else:
                 pre = None
                 oracle = "!{a}"
-                forms = [("S", "NotS::<%s>" % T), ("M", "NotV::<DMatrix<%s>>" % T), ("R", "NotV::<RowDVector<%s>>" % T),
-                         ("V", "NotV::<DVector<%s>>" % T)]
+                forms = [("S", "NotS::<%s>" % T), ("M", "NotV::<%s, DMatrix<%s>>" % (T, T)), ("R", "NotV::<%s, RowDVector<%s>>" % (T, T)),
+                         ("V", "NotV::<%s, DVector<%s>>" % (T, T))]
             for form, sexpr in forms:
                 if form not in forms_T:
                     continue
                 for (R, C) in (shapes if form != "S" else [shapes[0]]):
                     shp = "" if form == "S" else "_%dx%d" % (R, C)
                     fn = "vkc01_%s_%s_%s%s" % (op, form.lower(), T, shp)
-                    text = kgen.un_harness(fn, sexpr, T, T, form, R, C, pre, oracle, marker=True)
+                    text = kgen.un_harness(fn, sexpr, T, T, form, R, C, pre, oracle, marker=True, twice=(tier == "thorough"))
                     hs.append((fn, text))
                     ob = plan.ob("%s.%s.%s.%s%s" % (prop, op, form, T, shp), "kani", "proved" if form == "S" else "bounded",
                                  bound="" if form == "S" else "operand %dx%d" % (R, C), functions=[sexpr + "::solve"],
